@@ -163,11 +163,14 @@ def expected_table(spec, storage, cfg):
     return arrays, strings
 
 
-def classify_positions(poss):
+def classify_positions(poss, nd=1):
     p = set(poss)
     if p <= {"varptr"}:
         return "VARPTR-only"
-    if p <= {"read", "input", "varptr"}:
+    if p <= {"read", "input"}:
+        return "READ-INPUT-target-only"
+    if nd and p <= {"read", "input", "varptr"}:
+        # for ARRAYS both kinds of position are invisible to the passes (a scalar VARPTR operand is visited)
         return "READ-INPUT-target-only"
     if p <= {"fnarg", "fnarg_conv"}:
         return "function-argument-only"
@@ -225,7 +228,7 @@ def run_case(case):
         first_use.setdefault(name, idx)
     posmap = {}
     for n, s, nd, b, poss in spec:
-        posmap[("arr_" if nd else "") + canon(n).lower()] = (classify_positions(poss), nd, b is not None)
+        posmap[("arr_" if nd else "") + canon(n).lower()] = (classify_positions(poss, nd), nd, b is not None)
 
     def v(sig, **kw):
         obs["viols"].append({"sig": sig, "detail": dict(kw, source=text[:700], options=opts, config=cfg,
@@ -278,5 +281,12 @@ def cases(tier, seed):
     n = 3000 if tier == "quick" else 400000
     yield {"seed": 1, "storage": 80, "init": True,
            "fixed": [(10, [("let", ("var", "A"), ("fn", "JOYSTK", [X.num(0)]), False)])]}
+    for st in (80, 16, 255):
+        for tgt, nm in ((("input", None, [("var", "A$")], True), "input"), (("read", [("var", "A$")]), "read")):
+            # a string filled only by LINE INPUT / READ (which no pass looks at) and used only in VARPTR: the VARPTR use is
+            # what gets it declared
+            yield {"seed": st, "storage": st, "init": st == 16,
+                   "fixed": [(10, [tgt]), (20, [("let", ("var", "P"), ("fn", "VARPTR", [("var", "A$")]), False)]), (30, [("data", [("q", "D")])])],
+                   "spec": [("A$", True, 0, None, [nm, "varptr"])]}
     for i in range(n):
         yield {"seed": seed * 1299709 + i, "storage": STORAGES[i % len(STORAGES)], "init": (i // len(STORAGES)) % 2 == 0, "sample": i % 900 == 0}
